@@ -67,6 +67,8 @@ Definition supply (b : bank) (d : string) : Z := sup_get (b_supply b) d.
 
 (* normalize_amount: zero coins are dropped; nothing left is an error *)
 Definition bank_normalize (cs : list coin) : res (list coin) :=
+  (* amounts are Uint128 in the implementation: a negative amount cannot be constructed *)
+  if negb (forallb (fun c => 0 <=? amount_of c) cs) then Err "ill-typed coin" else
   let r := filter (fun c => negb (amount_of c =? 0)) cs in
   match r with [] => Err "Cannot transfer empty coins amount" | _ => Ok r end.
 
